@@ -73,6 +73,16 @@ def run(ctx):
             for thr in (0, -30):
                 extra.append(dict(entry=entry, limit=5, nlp=False, fuzzy=entry != "legacyoptions", thr=thr, ponly=False, pboost=False, allplat=True,
                                   plats=[], nocross=False, boost=False, query="raw", raw=name, corpus="alpha"))
+    # an embedding index whose vocabulary has a word with a capital outside ASCII; a project directory whose Makefile target is a query word
+    for raw in ("\u00fcber widget", "\u00fcber frobnicate", "unter widget", "frobnicate \u00fcber"):
+        for entry in ("universal", "cached"):
+            for nlp in (False, True):
+                extra.append(dict(entry=entry, limit=rnd.choice([1, 3, 5]), nlp=nlp, fuzzy=False, thr=0, ponly=False, pboost=False, allplat=True, plats=[],
+                                  nocross=False, boost=False, query="raw", raw=raw, corpus="semuni"))
+    for raw in ("deploy app", "app deploy", "deploy status", "lint app deploy"):
+        for lim in (1, 2):
+            extra.append(dict(entry="cli", limit=lim, nlp=True, fuzzy=True, thr=-30, ponly=False, pboost=False, allplat=True, plats=[],
+                              nocross=False, boost=False, query="raw", raw=raw, corpus="pair"))
     for s in extra:
         if s["entry"] == "cli":
             s.update(nlp=True, fuzzy=True, thr=-30)
